@@ -471,7 +471,9 @@ def _range_positions(ser, de):
     d_ok = False
     for m in find(de, 'match'):
         for arm in m['arms']:
-            if 'Range' not in ' '.join(top_pat_variants(arm['pat'])):
+            # the member may sit inside `Ok(..)` when `which()` is matched without `?`
+            if 'Range' not in ' '.join(top_pat_variants(arm['pat'])) and \
+                    not any('Range' in str(n.get('path', '')) for n in walk(arm['pat'])):
                 continue
             alias = {}
             for n in walk(arm['body']):
